@@ -129,7 +129,11 @@ def Rule.terms (r : Rule) : List Term :=
 def Program.vars (p : Program) : List String := p.foldl (fun acc r => ext acc r.vars) []
 def Program.symbols (p : Program) : List String := p.foldl (fun acc r => ext acc r.symbols) []
 def Program.preds (p : Program) : List Pred := p.foldl (fun acc r => ext acc r.preds) []
-def Program.headPreds (p : Program) : List Pred :=
-  p.foldl (fun acc r => match r.head.predicate with | some q => ins acc q | none => acc) []
+def headPredStep (acc : List Pred) (r : Rule) : List Pred :=
+  match r.head.predicate with
+  | some q => ins acc q
+  | none => acc
+
+def Program.headPreds (p : Program) : List Pred := p.foldl headPredStep []
 
 end Anthem.Asp
